@@ -22,7 +22,7 @@ def main():
   from harness.gen import models
   rng = np.random.default_rng(seed)
   for c in range(ncases):
-    sleep = rng.random() < 0.3
+    sleep = rng.random() < 0.3 or c == 0
     cone = ' cone="elliptic"' if rng.random() < 0.5 else ""
     jac = ' jacobian="sparse"' if rng.random() < 0.3 else ""
     integ = str(rng.choice(["Euler", "implicitfast", "RK4"]))
@@ -61,6 +61,9 @@ def main():
       caps = dict(naconmax=need_con * nworld, njmax=need_efc)   # exact fit
     elif mode == 2:
       caps = dict(njmax=max(need_efc - 1, 0))
+    if c == 0:
+      # regression (fix b83d10e): sleeping enabled and NO constraint capacity — the compact solver must not be entered
+      caps = dict(njmax=0)
     if rng.random() < 0.3 and sleep:
       caps["nvmax"] = int(rng.integers(1, mjm.nv + 1))
     if jac and rng.random() < 0.6:
